@@ -1667,8 +1667,7 @@ class Alias(ObjectAliasMixin):
             raise CyclicAliasError([self.target_path])
         self._target = value
         self.target_path = value.path
-        if self.parent is not None:
-            self._target.aliases[self.path] = self
+        self._update_target_aliases()
 
     @property
     def final_target(self) -> Object:
@@ -1741,9 +1740,11 @@ class Alias(ObjectAliasMixin):
                 resolved.resolve_target()
             except CyclicAliasError as error:
                 raise CyclicAliasError([self.target_path, *error.chain]) from error
-        self._target = resolved
+        # Registering the alias with its target can raise alias errors (the target can be an alias
+        # whose own chain cannot be resolved): do it before committing the target, all or nothing.
         if self.parent is not None:
-            self._target.aliases[self.path] = self  # type: ignore[union-attr]
+            resolved.aliases[self.path] = self
+        self._target = resolved
 
     def _update_target_aliases(self) -> None:
         with suppress(AttributeError, AliasResolutionError, CyclicAliasError):
